@@ -65,16 +65,29 @@ let parse_es s : e list = if s = "." || s = "" then [] else List.map parse_e (St
 let show_es (l : e list) = if l = [] then "." else String.concat "," (List.map show_e l)
 let show_opt_e = function Some e -> show_e e | None -> "0_0"
 
+(* <order><style>, as in the harness: the same numbers, not just the same signs *)
 let cmp_for (s : string) : (e -> e -> M.z) =
-  let nat a b = z_of_int (compare (a : int) b) in
-  if s = "n" then (fun (a, _) (b, _) -> nat a b)
-  else if s = "r" then (fun (a, _) (b, _) -> nat b a)
-  else if String.length s > 1 && s.[0] = 'm' then begin
-    let j = int_of_string (String.sub s 1 (String.length s - 1)) in
-    if j <= 0 then failwith "bad cmp";
-    let md a = ((a mod j) + j) mod j in
-    (fun (a, _) (b, _) -> nat (md a) (md b))
-  end else failwith "bad cmp"
+  if s = "" then failwith "bad cmp";
+  let n = String.length s in
+  let style, body =
+    match s.[n - 1] with
+    | 'd' | 't' | 'v' | 'x' | 'k' as c when n > 1 -> (c, String.sub s 0 (n - 1))
+    | _ -> (' ', s) in
+  let pos : e -> int =
+    if body = "n" then (fun (k, _) -> k)
+    else if body = "r" then (fun (k, _) -> - k)
+    else if String.length body > 1 && body.[0] = 'm' then begin
+      let j = int_of_string (String.sub body 1 (String.length body - 1)) in
+      if j <= 0 then failwith "bad cmp";
+      (fun (k, _) -> ((k mod j) + j) mod j)
+    end else failwith "bad cmp" in
+  let sign d = compare d 0 in
+  match style with
+  | 'd' -> (fun a b -> z_of_int (pos a - pos b))
+  | 't' -> (fun a b -> z_of_int (3 * (pos a - pos b)))
+  | 'v' -> (fun ((_, pa) as a) ((_, pb) as b) -> z_of_int ((pos a - pos b) * (1 + (abs pa + abs pb) mod 5)))
+  | 'x' -> (fun a b -> z_of_int (sign (pos a - pos b) * (1 lsl 40)))
+  | _ -> (fun a b -> z_of_int (sign (pos a - pos b)))
 
 (* ---- hashes, identical to the harness *)
 let feed (a, b) v =
@@ -102,7 +115,7 @@ let nat_ix s = let n = int_of_string s in if n < 0 then raise Bad else nat_of_in
 (* the model op, and whether it is a mutation (its output carries the summaries) *)
 let parse_op (o : string) : e M.op * char =
   match String.split_on_char ':' o with
-  | ["N"; b; keys; picks] -> (M.ONew (z_of_int (int_of_string b), parse_es keys, List.map nat_of_int (ints_of picks)), 'N')
+  | ["N"; b; keys; picks] -> (M.ONew (z_of_string b, parse_es keys, List.map nat_of_int (ints_of picks)), 'N')
   | ["C"; t] -> (M.OClone (nat_ix t), 'm')
   | ["a"; t; e] -> (M.OAdd (nat_ix t, parse_e e), 'm')
   | ["r"; t; e] -> (M.OReplace (nat_ix t, parse_e e), 'm')
@@ -148,7 +161,13 @@ let eval_history cmpname opss =
         st := st';
         match r with
         | M.RNoTree -> raise Bad
-        | M.RPanic -> push (if kind = 'N' then "panic:index" else "panic:nil"); raise Exit
+        | M.RPanic ->
+          (* New: the documented panic where the generated range test says so, otherwise an index
+             out of range in extract; everywhere else a nil dereference *)
+          push (match op with
+                | M.ONew (b, _, _) -> if M.new_beta_bad b then "panic:beta" else "panic:index"
+                | _ -> "panic:nil");
+          raise Exit
         | M.RFuel -> push "OUT-OF-FUEL"; raise Exit
         | M.RBadOracle -> push "BAD-ORACLE"; raise Exit
         | M.RUnit ->
@@ -255,7 +274,7 @@ let spec_history cmpname opss out : string option =
         let (st', r) = M.spec_step cmp !st op in
         st := st';
         match r with
-        | M.RPanic -> if is_fail && x <> "hang" then None else fail i o "New with beta outside 0..1000 must panic"
+        | M.RPanic -> if x = "panic:beta" then None else fail i o ("New with beta outside 0..1000 must panic with the documented value, got " ^ x)
         | _ when is_fail -> fail i o x
         | M.RBadOracle -> fail i o "the contents after New are not a strictly ascending choice of one given key per class"
         | M.RNoTree | M.RFuel -> Some "BAD"
